@@ -35,6 +35,16 @@ func scratch(name string) string {
 	return d
 }
 
+// a result that starts with "# " is a comment line (e.g. "# inconclusive strace …": the kill probe timed out on a loaded
+// machine), not a case: it is counted as inconclusive instead of breaking the tie with an unparsable case line
+func emitCase(out *common.Out, in, res string) {
+	if strings.HasPrefix(res, "# ") {
+		out.Line("%s", res)
+		return
+	}
+	out.Line("%s => %s", in, res)
+}
+
 func main() {
 	a := common.ParseArgs()
 	if a.Extra["child"] != "" {
@@ -52,6 +62,7 @@ func main() {
 	initTables()
 
 	suite := a.Extra["suite"]
+	var startBatch []startCase
 	out := common.NewOut()
 	defer out.Flush()
 	flushComments := func() {
@@ -99,20 +110,25 @@ func main() {
 			case "crash":
 				if suite == "crash" {
 					if c, ok := parseCrashCase(f[2:]); ok {
-						out.Line("%s => %s", c.input(), runCrash(c))
+						emitCase(out, c.input(), runCrash(c))
 					}
 				}
 			case "pscrash":
 				if suite == "crash" {
 					if c, ok := parsePsCrashCase(f[2:]); ok {
-						out.Line("%s => %s", c.input(), runPsCrash(c))
+						emitCase(out, c.input(), runPsCrash(c))
 					}
 				}
 			case "start":
 				if suite == "start" {
 					if c, ok := parseStartCase(f[2:]); ok {
-						out.Line("%s => %s", c.input(), runStart(c))
-						flushComments()
+						startBatch = append(startBatch, c)
+					}
+				}
+			case "snaps":
+				if suite == "snaps" {
+					if c, ok := parseSnapsCase(f[2:]); ok {
+						out.Line("%s => %s", c.input(), runSnaps(c))
 					}
 				}
 			case "psfile":
@@ -123,9 +139,12 @@ func main() {
 				}
 			}
 		}
+		runStartBatch(startBatch, out)
+		flushComments()
 		return
 	}
 
+	defer func() { runStartBatch(startBatch, out); flushComments() }()
 	total := a.N
 	if total < 0 {
 		total = 100
@@ -153,16 +172,17 @@ func main() {
 				out.Line("%s => %s", c.input(), runFile(c))
 			}
 		case "start":
-			c := genStartCase(r, k, total)
-			out.Line("%s => %s", c.input(), runStart(c))
-			flushComments()
+			startBatch = append(startBatch, genStartCase(r, k, total))
+		case "snaps":
+			c := genSnapsCase(r, k, total)
+			out.Line("%s => %s", c.input(), runSnaps(c))
 		case "crash":
 			if k%4 == 3 {
 				c := genPsCrashCase(r, k, total)
-				out.Line("%s => %s", c.input(), runPsCrash(c))
+				emitCase(out, c.input(), runPsCrash(c))
 			} else {
 				c := genCrashCase(r, k, total)
-				out.Line("%s => %s", c.input(), runCrash(c))
+				emitCase(out, c.input(), runCrash(c))
 			}
 		default:
 			fmt.Fprintln(os.Stderr, "unknown -suite", suite)
